@@ -281,7 +281,8 @@ fn task_message(message: &str, seconds: usize, max_cols: usize) -> String {
     };
     let mut out = message.to_owned();
     if out.len() + time_note.len() >= max_cols {
-        out.truncate(max_cols - time_note.len() - 3);
+        let keep = truncate(&out, max_cols.saturating_sub(time_note.len() + 3)).len();
+        out.truncate(keep);
         out.push_str("...");
     }
     out.push_str(&time_note);
